@@ -70,9 +70,12 @@ def exc_info():
 
 @target("pedal.sandbox.sandbox:Sandbox._execute_with_timeout")
 def _execute_with_timeout(self, code, filename, kind, **meta):
-    requires(instance_of(self, Sandbox) and is_list(self._current_patches) and is_number(self.allowed_time) and is_dict(meta))
+    requires(instance_of(self, Sandbox) and is_list(self._current_patches) and is_list(self._current_stdout)
+             and is_number(self.allowed_time) and is_dict(meta))
     abstract("timeout", raises=Exception, label="timeout",
-             modifies=[everything(), ghost('live_patches'), ghost('printed')])
+             modifies=[items_of_any(), dict_of_any(), attr_of_any('exception'), attr_of_any('feedback'), attr_of_any('raw_output'),
+                       attr_of_any('_next_context_id'), attr_of_any('result'), attr_of_any('output'),
+                       ghost('live_patches'), ghost('printed')])
     modifies(everything(), ghost('runtime_feedback'), ghost('live_patches'),
              ghost('printed'), ghost('stop_patches_calls'), ghost('captured'))
     raises_only(Exception)
@@ -81,6 +84,8 @@ def _execute_with_timeout(self, code, filename, kind, **meta):
         ghost('raised_timeout') == old(ghost('raised_timeout')) + 1,
         result is self and self.exception is not None and ghost('stop_patches_calls') == old(ghost('stop_patches_calls')) + 1
         and ghost('runtime_feedback') == old(ghost('runtime_feedback')) + 1 and instance_of(ghost_val('captured'), TimeoutError)))
+    ensures("stdout_buffer_of_the_abandoned_run_is_dropped", implies(
+        ghost('raised_timeout') == old(ghost('raised_timeout')) + 1, is_list(self._current_stdout)))
     ensures("no_timeout_no_report_from_here", implies(ghost('raised_timeout') == old(ghost('raised_timeout')),
                                                       ghost('stop_patches_calls') == old(ghost('stop_patches_calls'))
                                                       and ghost('runtime_feedback') == old(ghost('runtime_feedback'))))
